@@ -89,6 +89,19 @@ theorem firstOk_time (t : Time) (h : timeOk t = true) : FirstOk (enc (.time t) t
     exact firstOk_of_class _ _ (by simp [hm.1.1.1.1.1.1])
   · simp at hm
 
+theorem firstOk_datetime (t : DateTime) (h : dtOk t = true) : FirstOk (enc (.dateTime t) true) := by
+  simp only [dtOk, Bool.and_eq_true] at h
+  obtain ⟨hasc, hm⟩ := h
+  simp only [enc]
+  rw [encDateTime_eq, encChars_all_ascii hasc]
+  unfold dtBytesOk at hm
+  split at hm
+  · rename_i y0 _ _ _ _ _ _ _ _ _ _ _ _ _ _ heq
+    rw [heq]
+    simp only [Bool.and_eq_true] at hm
+    exact firstOk_of_class _ _ (by simp [hm.1.1.1.1.1.1.1.1.1.1.1.1.1.1.1])
+  · simp at hm
+
 theorem firstOk_xstr (ty v : List Char) (h : isXStrType ty = true) : FirstOk (enc (.xstr ty v) true) := by
   simp only [isXStrType, Bool.and_eq_true] at h
   simp only [enc]
@@ -106,7 +119,7 @@ theorem firstOk_xstr (ty v : List Char) (h : isXStrType ty = true) : FirstOk (en
 
 mutual
 /-- decidable well-formedness: what the Zinc reader needs to return the lexical image of what the writer
-printed.  `dateTime` is not covered yet (see `Hs.Thm.C01`). -/
+printed -/
 def wfV : Val → Bool
   | .null => true
   | .remove => true
@@ -120,7 +133,7 @@ def wfV : Val → Bool
   | .sym s => isSymBody s
   | .date d => dateOk d
   | .time t => timeOk t
-  | .dateTime _ => false
+  | .dateTime t => dtOk t
   | .coord a b => decTextOk a.txt && decTextOk b.txt
   | .xstr ty _ => isXStrType ty
   | .list xs => wfVs xs
@@ -176,7 +189,9 @@ theorem good_of_wf : ∀ v : Val, wfV v = true → GoodV v
   | .time t, h => by
     simp only [wfV] at h
     simp only [GoodV]; exact ⟨tok_time t h, firstOk_time t h⟩
-  | .dateTime _, h => by simp [wfV] at h
+  | .dateTime t, h => by
+    simp only [wfV] at h
+    simp only [GoodV]; exact ⟨tok_datetime t h, firstOk_datetime t h⟩
   | .coord a b, h => by
     simp only [wfV, Bool.and_eq_true] at h
     simp only [GoodV]
